@@ -36,6 +36,7 @@ const (
 	cDeleteExpired
 	cClear
 	nOpKinds
+	oWaitSize uint8 = 200 // harness-internal pseudo operation (never recorded)
 )
 
 var opNames = [nOpKinds]string{"Load", "Store", "LoadOrStore", "LoadAndStore", "LoadOrCompute", "Compute", "LoadAndDelete", "Delete", "Clear",
